@@ -159,7 +159,7 @@ class ZipReader(AbstractReader):
 
             except Exception:
                 debug.logger & debug.flagReader and debug.logger('ZIP read component %s read error: %s' % (fileObj.name, sys.exc_info()[1]))
-                return '', 0
+                return None, 0
 
         return dataObj, mtime
 
@@ -187,7 +187,7 @@ class ZipReader(AbstractReader):
 
             mibData, mtime = self._readZipFile(refs)
 
-            if not mibData:
+            if mibData is None:
                 continue
 
             debug.logger & debug.flagReader and debug.logger(
